@@ -74,3 +74,118 @@ func harnessC06CountBoundaryFits() {
 func harnessC06CountBoundary() {
 	c06Check(255+verif_choose(2), 0)
 }
+
+// ---------- forwarded and replayed route groups ----------
+
+type c06Key struct {
+	fam  uint8
+	plen uint8
+	pfx  string
+}
+
+func c06KeyOf(r protocol.Route) c06Key {
+	return c06Key{r.AddressFamily, r.PrefixLength, string(r.Prefix)}
+}
+
+// group announced by one origin: CIDR with symbolic bytes, exact and wildcard domain, forward key, presence
+func c06Group(origin identity.AgentID, tag byte, metric uint16, third byte) []protocol.Route {
+	return []protocol.Route{
+		{AddressFamily: protocol.AddrFamilyIPv4, PrefixLength: 24, Prefix: []byte{10, tag, third, 0}, Metric: metric},
+		{AddressFamily: protocol.AddrFamilyDomain, PrefixLength: 0, Prefix: protocol.EncodeDomainPrefix(string([]byte{tag, '.', 'e', 'x'})), Metric: metric},
+		{AddressFamily: protocol.AddrFamilyDomain, PrefixLength: 1, Prefix: protocol.EncodeDomainPrefix(string([]byte{'*', '.', tag, '.', 'w'})), Metric: metric},
+		{AddressFamily: protocol.AddrFamilyForward, PrefixLength: 0, Prefix: protocol.EncodeForwardKeyWithTarget(string([]byte{'k', tag}), ""), Metric: metric},
+		{AddressFamily: protocol.AddrFamilyAgent, PrefixLength: 0, Prefix: protocol.EncodeAgentPrefix(origin), Metric: metric},
+	}
+}
+
+func c06SameSet(got []protocol.Route, want []protocol.Route) bool {
+	if len(got) != len(want) {
+		return false
+	}
+	for _, w := range want {
+		n := 0
+		for _, g := range got {
+			if c06KeyOf(g) == c06KeyOf(w) {
+				n++
+			}
+		}
+		if n != 1 {
+			return false
+		}
+	}
+	return true
+}
+
+// a group received from a neighbour is forwarded to the other neighbours as exactly that group
+func harnessC06Forward() {
+	f, snd, _ := fNew(0, []identity.AgentID{fID(0), fID(1)})
+	origin := fID(2)
+	m := verif_nondet_u16()
+	verif_assume(m < 1000)
+	grp := c06Group(origin, 'c', m, verif_nondet_u8())
+	path := []identity.AgentID{fID(0), origin}
+	f.HandleRouteAdvertise(fID(0), origin, "", 7, grp, &protocol.EncryptedData{Data: protocol.EncodePath(path)}, []identity.AgentID{origin, fID(0)})
+	verif_reach("C06/forward")
+	verif_assert(len(snd.log) == 1 && snd.log[0].to == fID(1), "C06/group-not-forwarded-once-to-the-other-neighbour")
+	if len(snd.log) != 1 {
+		return
+	}
+	adv, err := protocol.DecodeRouteAdvertise(snd.log[0].f.Payload)
+	verif_assert(err == nil, "C06/forwarded-group-does-not-decode")
+	if err != nil {
+		return
+	}
+	verif_assert(adv.OriginAgent == origin && adv.Sequence == 7, "C06/forwarded-group-origin-or-sequence-altered")
+	verif_assert(c06SameSet(adv.Routes, grp), "C06/forwarded-group-is-a-different-set")
+}
+
+// routes learned from two origins (one of them two hops away, through the
+// other) are replayed to a new peer as one group per origin with exactly that
+// origin's routes
+func harnessC06Replay() {
+	f, snd, rm := fNew(0, []identity.AgentID{fID(0)})
+	b, c, d := fID(0), fID(2), fID(1)
+	mb, mc := verif_nondet_u16(), verif_nondet_u16()
+	verif_assume(mb < 1000 && mc < 1000)
+	gb := c06Group(b, 'b', mb, 1) // concrete prefixes: the replay keys its de-duplication map by the printed network
+	gc := c06Group(c, 'c', mc, 2)
+	f.HandleRouteAdvertise(b, b, "", 3, gb, &protocol.EncryptedData{Data: protocol.EncodePath([]identity.AgentID{b})}, []identity.AgentID{b})
+	f.HandleRouteAdvertise(b, c, "", 5, gc, &protocol.EncryptedData{Data: protocol.EncodePath([]identity.AgentID{b, c})}, []identity.AgentID{c, b})
+	rm.AddLocalRoute(&net.IPNet{IP: net.IP{10, 'l', 0, 0}, Mask: net.CIDRMask(24, 32)}, 0)
+	// the new peer connects
+	f.sender.(*fSender).peers = []identity.AgentID{b, d}
+	snd.log = nil
+	f.SendFullTable(d)
+	verif_reach("C06/replay")
+	var gotB, gotC []protocol.Route
+	for _, s := range snd.log {
+		verif_assert(s.to == d, "C06/replay-sent-to-another-peer")
+		_, err := s.f.Encode()
+		verif_assert(err == nil, "C06/announcement-exceeds-frame-size")
+		adv, err := protocol.DecodeRouteAdvertise(s.f.Payload)
+		verif_assert(err == nil, "C06/announcement-does-not-decode-at-the-neighbour")
+		if err != nil {
+			return
+		}
+		switch adv.OriginAgent {
+		case b:
+			gotB = append(gotB, adv.Routes...)
+		case c:
+			gotC = append(gotC, adv.Routes...)
+		default:
+			verif_assert(adv.OriginAgent == fID(fLocal), "C06/replayed-group-of-an-unknown-origin")
+			for _, r := range adv.Routes {
+				isB, isC := false, false
+				for _, w := range gb {
+					isB = isB || c06KeyOf(w) == c06KeyOf(r)
+				}
+				for _, w := range gc {
+					isC = isC || c06KeyOf(w) == c06KeyOf(r)
+				}
+				verif_assert(!isB && !isC, "C06/learned-route-replayed-under-the-local-origin")
+			}
+		}
+	}
+	verif_assert(c06SameSet(gotB, gb), "C06/replayed-group-of-a-neighbour-origin-is-a-different-set")
+	verif_assert(c06SameSet(gotC, gc), "C06/replayed-group-of-a-remote-origin-is-a-different-set")
+}
